@@ -42,18 +42,18 @@ structure Call where
 structure Route where
   op : Nat        -- mathematical operation incl. its option variant (index into `opNames`)
   probe : Nat     -- operand classes (index into `probeNames`)
-  form : Nat      -- 0 plain, 1 in-place (augmented / out=Tensor), 2 out=ndarray, 3 where=, 4 dtype=  (`formNames`)
+  form : Nat      -- index into `formNames` (plain, in-place, out=, where=, dtype= and their combinations)
   kind : Kind
   spelling : Nat  -- index into `spellingNames`
   calls : List Call
   deriving DecidableEq, Repr, Inhabited
 
 /-- same mathematical operation on the same operand classes in the same form -/
-def Route.key (r : Route) : Nat := (r.op * 64 + r.probe) * 8 + r.form
+def Route.key (r : Route) : Nat := (r.op * 128 + r.probe) * 16 + r.form
 /-- same mathematical operation on the same operand classes (any form) -/
-def Route.opKey (r : Route) : Nat := r.op * 64 + r.probe
+def Route.opKey (r : Route) : Nat := r.op * 128 + r.probe
 
-def Route.bounded (r : Route) : Bool := decide (r.probe < 64) && decide (r.form < 8)
+def Route.bounded (r : Route) : Bool := decide (r.probe < 128) && decide (r.form < 16)
 
 def Route.sigs (r : Route) : List CallSig := r.calls.map (·.sig)
 def Route.flags (r : Route) : List Bool := r.calls.map (·.inPlace)
